@@ -1,7 +1,7 @@
 (** Extraction of the executable models to OCaml (oracle for the
     correspondence checks).  ExtrOcamlBasic only; N/positive/nat stay the
     extracted inductive types. *)
-From XZ Require Import Base Crc Sha256 Bcj BcjInst CodeWrap C11Lemmas Lzma Lzma2 Xz Formats IndexModel XzNames Outq.
+From XZ Require Import Base Crc Sha256 Bcj BcjInst CodeWrap C11Lemmas Lzma Lzma2 Xz Formats IndexModel XzNames Outq RcAbs RcDec RcEnc.
 Require Extraction.
 Require Import ExtrOcamlBasic.
 Extraction Language OCaml.
@@ -17,4 +17,5 @@ Extraction "xzmodel"
   IndexModel.file_size IndexModel.uncompressed_size IndexModel.checks IndexModel.all_blocks IndexModel.nonempty_blocks
   IndexModel.locate IndexModel.index_encode
   XzNames.compressed_name XzNames.uncompressed_name XzNames.dest_mode XzNames.final_status
-  Outq.run Outq.step Outq.outq0.
+  Outq.run Outq.step Outq.outq0
+  RcEnc.encode Lzma.prob_update Lzma.rc_init Lzma.rc_decode_bit Lzma.rc_direct1 Lzma.rc_normalize.
